@@ -542,4 +542,52 @@ func c09ValueKinds(res *core.Result) {
 			}
 		}
 	}
+	// the removal callback fires exactly once with the key and the value, whatever the value is
+	// (nil interface, typed nil pointer, zero values, uncomparable values), for Delete and for eviction
+	var nilPtr *int
+	vals := []struct {
+		name string
+		v    interface{}
+	}{{"nil interface", nil}, {"typed nil pointer", nilPtr}, {"0", 0}, {"empty string", ""}, {"false", false}, {"nil slice", []int(nil)}, {"slice", []int{1}}, {"map", map[string]int{"a": 1}}, {"nil map", map[string]int(nil)}, {"func", f1}, {"struct{}", struct{}{}}, {"nil error", error(nil)}}
+	for _, how := range []string{"delete", "evict", "overwrite-then-delete", "evict-after-load"} {
+		for _, x := range vals {
+			func() {
+				desc := fmt.Sprintf("value %s removed by %s", x.name, how)
+				defer func() {
+					if r := recover(); r != nil {
+						res.Violate("C09|value-kinds|panic", fmt.Sprintf("%s: panic %v", desc, r), desc)
+					}
+				}()
+				var got []cbEntry
+				l := valid.NewLRU(2)
+				l.SetDelCallBackFn(func(k, v interface{}) { got = append(got, cbEntry{k, v}) })
+				switch how {
+				case "delete":
+					l.Store("k", x.v)
+					l.Delete("k")
+				case "evict":
+					l.Store("k", x.v)
+					l.Store("a", 1)
+					l.Store("b", 2)
+				case "overwrite-then-delete":
+					l.Store("k", 5)
+					l.Store("k", x.v)
+					l.Delete("k")
+				case "evict-after-load":
+					l.Store("k", x.v)
+					l.Store("a", 1)
+					l.Load("a")
+					l.Store("b", 2)
+				}
+				res.Eval()
+				res.Count("callback_value_kind_cases")
+				if len(got) != 1 || got[0].k != "k" || !reflect.DeepEqual(got[0].v, x.v) && x.name != "func" {
+					res.Violate("C09|value-kinds|callback", fmt.Sprintf("%s: callbacks received %d %+v, want exactly one (k, %v)", desc, len(got), got, x.v), desc)
+				}
+				if n := l.Len(); (how == "delete" || how == "overwrite-then-delete") && n != 0 || (how == "evict" || how == "evict-after-load") && n != 2 {
+					res.Violate("C09|value-kinds|len-or-callback", fmt.Sprintf("%s: Len()=%d afterwards", desc, n), desc)
+				}
+			}()
+		}
+	}
 }
